@@ -88,14 +88,14 @@ def replay_known(run):
 def classify(c, live):
     """-> (verdict, text).  verdict: ok | undefined | known | inconclusive | VIOLATION"""
     real, direct, exp = c.real_call, c.real_direct, c.expected
-    if real.kind != direct.kind or (real.kind == "num" and not H.same_number(real.value, direct.value)):
+    if real.kind != direct.kind or (real.kind == "num" and not H.same_number(real.value, direct.value, c.scale)):
         return "VIOLATION", "e(x, mapping, component) differs from expand_derivatives(e).evaluate(...)"
     if exp.kind == "unsupported":
         return "inconclusive", "mirror does not support the expression"
     if real.kind == "num":
         if exp.kind != "num":
             return "inconclusive", "mirror undefined (division by zero / domain) where the code returned a number"
-        if H.same_number(real.value, exp.value):
+        if H.same_number(real.value, exp.value, c.scale, rel=1e-8):
             return "ok", ""
         if not isinstance(real.value, (int, Fr)) and H.fragile_conditions(c.e, c.env):
             return "inconclusive", "float result with a comparison decided by < 1e-6"
@@ -110,10 +110,12 @@ def classify(c, live):
     return "VIOLATION", "raises / returns a non-number on an input whose mathematical value is defined"
 
 
-def coq_expected(c, verdict):
+def coq_expected(c, verdict, live):
     """The right-hand side of the generated Example, or 'skip'."""
     if not H.coq_eligible(c.f) or verdict in ("VIOLATION", "inconclusive"):
         return "skip"
+    if c.known - live:
+        return "skip"      # that defect was fixed in this tree: the (defect-faithful) model does not apply
     real = c.real_direct
     if real.kind == "num":
         if "permutation-symbol-object" in c.known:
@@ -123,6 +125,19 @@ def coq_expected(c, verdict):
         if isinstance(c.expected.value, (int, Fr)):
             return Fr(c.expected.value)     # float result: agreement with this exact value was checked
         return "skip"
+    return None
+
+
+def pick_build(i):
+    """Deterministic streams first (every run), then the seeded random streams."""
+    if i < H.N_TIE:
+        return H.tie_builder(i)
+    if i < H.N_TIE + H.N_SCOPE:
+        return H.scope_builder(i - H.N_TIE)
+    if i % 20 == 7:
+        return H.shadow_builder
+    if i % 5 in (2, 4):
+        return H.deriv_builder
     return None
 
 
@@ -155,9 +170,14 @@ def main(run):
     rules, customs, problems = C24_ast.extract()
     import C24_expected
     changed = []
+    fixed_forms = []
     for name, nf in customs.items():
         if C24_expected.EXPECTED.get(name) != nf:
-            changed.append(name)
+            if getattr(C24_expected, "FIXED", {}).get(name) == nf:
+                fixed_forms.append(name)        # the repaired body of a known finding (fixes/C24-*.diff)
+            else:
+                changed.append(name)
+    run.extra["methods_in_repaired_form"] = fixed_forms
     for name in C24_expected.EXPECTED:
         if name not in customs:
             changed.append(name)
@@ -180,10 +200,12 @@ def main(run):
     live = replay_known(run)
 
     # ---- T3 differential
-    n_cases = 600 if quick else 6000
+    n_cases = H.N_TIE + H.N_SCOPE + (600 if quick else 6000)
     n_max = max(n_cases, 4000) if t1_broken else n_cases    # broken tie: search harder for a failing input
     verdicts = collections.Counter()
     hist = collections.Counter()
+    dhist = collections.Counter()
+    n_deriv = 0
     coq_cases = []
     violations = []
     by_name = {}
@@ -192,9 +214,12 @@ def main(run):
             break
         depth = rng.choice([1, 2, 2, 3, 3, 4])
         seed = rng.randrange(10**12)
-        c = H.run_case(i, seed, depth, exact_only=(i % 3 == 0), allow_known=(i % 4 != 1),
-                       build=(H.shadow_builder if i % 20 == 7 else None))
+        c = H.run_case(i, seed, depth, exact_only=(i % 3 == 0), allow_known=(i % 4 != 1), build=pick_build(i))
         verdict, text = classify(c, live)
+        dk = H.differentiated_kinds(c.e)
+        dhist.update(dk)
+        if dk:
+            n_deriv += 1
         verdicts[verdict] += 1
         for n in H.nodes(c.f):
             hist[type(n).__name__] += 1
@@ -207,7 +232,7 @@ def main(run):
         if i < 3:
             run.sample({"input": str(c.e)[:200], "component": list(c.comp), "real": repr(c.real_call),
                         "expected": repr(c.expected), "verdict": verdict})
-        exp = coq_expected(c, verdict)
+        exp = coq_expected(c, verdict, live)
         if exp != "skip":
             name = f"c{i}"
             try:
@@ -218,6 +243,11 @@ def main(run):
     run.extra["verdicts"] = dict(verdicts)
     run.extra["node_histogram"] = dict(hist.most_common())
     run.extra["coq_cases"] = len(coq_cases)
+    run.extra["cases_with_derivatives"] = n_deriv
+    run.extra["differentiated_operator_histogram"] = dict(dhist.most_common())
+    run.extra["streams"] = {"tie_enumeration": H.N_TIE, "scope_enumeration": H.N_SCOPE,
+                            "random": n_cases, "of which derivative stream": "i % 5 in (2, 4)",
+                            "index re-use stream": "i % 20 == 7"}
 
     for c, text in violations:
         rep = H.describe(c)
@@ -250,7 +280,7 @@ def main(run):
                "obligation": lemma, "file": fname, "coq_message": err}
         if info:
             c = H.run_case(info[2], info[0], info[1], exact_only=(info[2] % 3 == 0), allow_known=(info[2] % 4 != 1),
-                           build=(H.shadow_builder if info[2] % 20 == 7 else None))
+                           build=pick_build(info[2]))
             rep.update(H.describe(c))
         if not violations:
             run.violation(rep, False)
